@@ -34,6 +34,7 @@ PER_SESSION = [
     ('APPEND', b'APPEND INBOX ' + lit(msg(7))),
     ('APPEND-Recent-flag', b'APPEND INBOX (\\Recent \\Seen) ' + lit(msg(8))),
     ('COPY1-INBOX', b'COPY 1 INBOX'),
+    ('COPYlast-INBOX', b'COPY * INBOX'),
     ('MOVE1-INBOX', b'MOVE 1 INBOX'),
     ('SELECT-missing', b'SELECT Missing'),
 ]
@@ -65,11 +66,14 @@ class Rec:
 class Model:
     name = 'c17'
 
-    def __init__(self, nsess=2, cmds=None, kind='dict') -> None:
+    def __init__(self, nsess=2, cmds=None, kind='dict', pre=()) -> None:
         self.nsess = nsess
         self.kind = kind
+        # a non-initial start state: events (session, name) applied in new()
+        self.pre = [tuple(x) for x in pre]
         names = cmds or [n for n, _ in PER_SESSION]
-        self.params = {'nsess': nsess, 'cmds': names, 'kind': kind}
+        self.params = {'nsess': nsess, 'cmds': names, 'kind': kind,
+                       'pre': [list(x) for x in self.pre]}
         table = dict(PER_SESSION)
         self._alpha = []
         for s in range(nsess):
@@ -119,6 +123,13 @@ class Model:
             rec.sel[s] = None
             rec.last_recent[s] = None
         ctx.steps.clear()
+        for sess, nm in self.pre:
+            idx = [i for i, e in enumerate(self._alpha)
+                   if e['s'] == sess and e['name'] == nm][0]
+            vs = self.apply(ctx, idx)
+            assert not vs, ('start state already violates', vs)
+        ctx.extra['hist'] = []
+        ctx.steps.clear()
         return ctx
 
     def enabled(self, ctx):
@@ -138,7 +149,8 @@ class Model:
             sel = rec.sel[ev['s']]
             if n in ('CLOSE', 'NOOP', 'FETCHall', 'STORE+Recent',
                      'STORE-Recent', 'STOREall=Recent', 'SEARCH-RECENT',
-                     'COPY1-INBOX', 'MOVE1-INBOX') and sel is None:
+                     'COPY1-INBOX', 'COPYlast-INBOX', 'MOVE1-INBOX') \
+                    and sel is None:
                 continue
             out.append(i)
         return out
@@ -368,13 +380,22 @@ def run(*, tier, seed, jobs, progress, opts):
                       depth=int(opts['depth']),
                       kind=opts.get('kind', 'dict'))]
     elif tier == 'quick':
+        started = [(0, 'SELECT-INBOX'), (-1, 'DELIVER'), (0, 'NOOP')]
         plans = [dict(nsess=2, depth=3), dict(nsess=3, depth=2),
-                 dict(nsess=2, depth=2, kind='++')]
+                 dict(nsess=2, depth=2, kind='++'),
+                 # from a state in which a session has the mailbox selected
+                 # and has been shown a message somebody else delivered
+                 dict(nsess=2, depth=2, kind='++', pre=started),
+                 dict(nsess=2, depth=2, pre=started)]
     else:
         plans = [dict(nsess=2, depth=4),
                  dict(nsess=3, depth=3),
                  dict(nsess=2, depth=3, kind='++'),
-                 dict(nsess=2, depth=2, kind='fs')]
+                 dict(nsess=2, depth=2, kind='fs'),
+                 dict(nsess=2, depth=3, kind='++', pre=[
+                     (0, 'SELECT-INBOX'), (-1, 'DELIVER'), (0, 'NOOP')]),
+                 dict(nsess=2, depth=3, pre=[
+                     (0, 'SELECT-INBOX'), (-1, 'DELIVER'), (0, 'NOOP')])]
     violations = []
     cov = {'plans': [], 'states': 0, 'transitions': 0,
            'traces_validated_against_impl': 0, 'samples': []}
@@ -392,7 +413,9 @@ def run(*, tier, seed, jobs, progress, opts):
             raise RuntimeError('harness error during exploration')
         c = res.coverage(m)
         cov['plans'].append({'sessions': m.nsess, 'depth': depth,
-                             'backend': m.kind, **{
+                             'backend': m.kind,
+                             'start_state': [f's{a}:{b}' for a, b in m.pre],
+                             **{
             k: c[k] for k in ('states', 'transitions', 'depth_completed',
                               'frontier_sizes', 'state_cap_hit')}})
         cov['states'] += c['states']
@@ -401,6 +424,29 @@ def run(*, tier, seed, jobs, progress, opts):
         cov['samples'] += [[f"s{e['s']}:{e['name']}" for e in smp]
                            for smp in c['samples'][:3]]
         violations += res.violations
+    # E7: a session working on a message still in new/ races with another
+    # session's SELECT (which claims new/) on the maildir backend
+    if 'depth' not in opts:
+        import multiprocessing as mp
+        from . import c17mt
+        mtc = {'pairs': 0, 'executions': 0, 'distinct_outcomes': 0,
+               'by_preemptions': {}}
+        with scratch_parent(), \
+                mp.get_context('fork').Pool(jobs or 16) as pool:
+            for st in pool.imap_unordered(c17mt.task, c17mt.tasks(tier),
+                                          chunksize=1):
+                if 'error' in st:
+                    raise RuntimeError(f'E7 harness error: {st}')
+                mtc['pairs'] += 1
+                mtc['executions'] += st['executions']
+                mtc['distinct_outcomes'] += st['outcomes']
+                for k, n in st['by_preemptions'].items():
+                    mtc['by_preemptions'][str(k)] = \
+                        mtc['by_preemptions'].get(str(k), 0) + n
+                violations += st['violations']
+        cov['maildir_threads'] = mtc
+        cov['transitions'] += mtc['executions']
+        cov['traces_validated_against_impl'] += mtc['executions']
     cov['alphabet'] = [n for n, _ in PER_SESSION] + [n for n, _ in GLOBAL]
     cov['exhaustive'] = True
     cov['rule'] = ('all histories up to the depth bound of select/examine/'
@@ -417,6 +463,16 @@ def run(*, tier, seed, jobs, progress, opts):
 def replay(rec):
     from ..worlds import scratch_parent
     r = rec['replay']
+    if r.get('mt17'):
+        from . import c17mt, mtmaildir as mt
+        with scratch_parent():
+            ex, info = c17mt.run_schedule(r['layout'], tuple(r['names']),
+                                          r['prefix'])
+            viols = c17mt.judge(r['layout'], tuple(r['names']), ex, info)
+            mt.drop_templates()
+        for v in viols:
+            print('VIOLATION-REPLAYED', v['rule'], v['site'], v['msg'])
+        return 1 if viols else 0
     m = Model(**r['params'])
     with scratch_parent():
         viols = run_history(m, r['history'])
